@@ -33,31 +33,6 @@ namespace FV.C20
 open FV.NS
 
 
-/-- Helper: nothing is held by subscriptions whose callback goroutines are all idle. -/
-theorem flat_subCb_idle (l : List Sub) (h : ∀ sb ∈ l, sb.cb = .idle) : flat subCb l = [] := by
-  induction l with
-  | nil => rfl
-  | cons a t ih =>
-    have ha := h a List.mem_cons_self
-    simp [flat, subCb, ha, cbMsgs, ih (fun x hx => h x (List.mem_cons_of_mem _ hx))]
-
-theorem flat_subAll_empty (l : List Sub) (h : ∀ sb ∈ l, sb.inflight = [] ∧ sb.pending = [] ∧ sb.cb = .idle) :
-    flat subAll l = [] := by
-  induction l with
-  | nil => rfl
-  | cons a t ih =>
-    obtain ⟨h1, h2, h3⟩ := h a List.mem_cons_self
-    simp [flat, subAll, h1, h2, h3, cbMsgs, ih (fun x hx => h x (List.mem_cons_of_mem _ hx))]
-
-theorem busy_all_exited (ws : List Wk) (h : ∀ x ∈ ws, x = .exited) : busyList ws = [] := by
-  induction ws with
-  | nil => rfl
-  | cons a t ih =>
-    have ha := h a List.mem_cons_self
-    subst ha
-    simp [busyList, flat, wkMsgs]
-    exact ih (fun x hx => h x (List.mem_cons_of_mem _ hx))
-
 /-- No request is processed twice — in every reachable state, for every worker count (also 0),
 queue length, number of subjects, arrival sequence, schedule, with or without a connection fault.
 Neither is a reply published twice, and nothing is processed that did not arrive. -/
